@@ -140,12 +140,12 @@ Print Assumptions C09_multi_key.
 Theorem C09_eval_keys : forall bk cf ins redir c ns n a c',
   data_kind c = DEval -> elem c 2 = Some ns -> btoi_usize ns = Some n -> n <> 1 ->
   In (a, c') (out_sent (handle_data bk cf ins redir c)) ->
-  same_slot (filter_some (firstn_N n (skipn 3 c))) = true.
+  same_slot (filter_some (firstn_N (eval_key_count c n) (skipn 3 c))) = true.
 Proof. exact eval_keys_same_slot. Qed.
 Check C09_eval_keys : forall bk cf ins redir c ns n a c',
   data_kind c = DEval -> elem c 2 = Some ns -> btoi_usize ns = Some n -> n <> 1 ->
   In (a, c') (out_sent (handle_data bk cf ins redir c)) ->
-  same_slot (filter_some (firstn_N n (skipn 3 c))) = true.
+  same_slot (filter_some (firstn_N (eval_key_count c n) (skipn 3 c))) = true.
 Print Assumptions C09_eval_keys.
 
 (* ---------- non-vacuity: concrete values ---------- *)
